@@ -285,7 +285,11 @@ impl MultiState {
 
         let width = match self.width() {
             Some(width) => width as usize,
-            None => return Ok(()),
+            None => {
+                // Nothing is shown on a hidden target: this includes what its bars `println`
+                self.orphan_lines.clear();
+                return Ok(());
+            }
         };
 
         // Assumption: if extra_lines is not None, then it has at least one line
